@@ -58,7 +58,9 @@ ASSUMPTIONS = [
     'walk_folder arguments are relative folder names without "." / ".." components; a trailing separator is allowed '
     '(srctools itself calls walk_folder("materials/") and the chain passes "<prefix>/")',
     'chain queries contain no ".." (escaping a member subfolder is not part of the statement)',
-    'VPK files are written with arch_index 0/1 and the default dir_data_limit; every third file is 1.1-3 KiB so that '
+    'VPK v2 directory files are made by re-wrapping the v1 bytes srctools wrote (28-byte header, md5 trailer) and are '
+    're-read with the harness decoder; zip members are stored, deflated or zip64 (all read through zipfile)',
+    'VPK files are written with arch_index 0/1/None and the default dir_data_limit; every third file is 1.1-3 KiB so that '
     'data lands in numbered archives; the result is '
     're-read with an independent decoder before it is used',
 ]
@@ -135,7 +137,9 @@ def fileset_strategy(tier: str):
         'virt_str': st.booleans(),          # VirtualFileSystem values given as str instead of bytes
         'zip_dirs': st.booleans(),          # zip also holds entries for the directories
         'zip_mem': st.booleans(),           # ZipFileSystem over an in-memory ZipFile object
-        'vpk_single': st.booleans(),        # 'x.vpk' instead of 'x_dir.vpk'
+        'vpk_single': st.sampled_from([False, False, True]),        # 'x.vpk' instead of 'x_dir.vpk'
+        'vpk_v2': st.booleans(),            # directory file re-wrapped in the version 2 layout
+        'zip_variant': st.sampled_from(['stored', 'deflated', 'zip64']),
         'qseed': st.integers(0, 1 << 16),   # rotates which extra (absent / prefix) queries are tried
     })
 
@@ -149,6 +153,8 @@ def chain_strategy(tier: str):
         'prefix_case': st.sampled_from(['orig', 'orig', 'orig', 'upper', 'lower']),
         'prefix_slash': st.booleans(),
         'how': st.sampled_from(['ctor', 'add', 'add', 'priority']),
+        'v2': st.booleans(),                # a VPK member is re-wrapped in the version 2 layout
+        'zipv': st.sampled_from(['stored', 'deflated', 'zip64']),
     })
     return st.fixed_dictionaries({
         'pool': st.lists(path_strategy(POOL_FOLDERS, POOL_STEMS, POOL_EXTS, max_depth=3), min_size=1, max_size=10),
@@ -254,14 +260,20 @@ def has_prefix_pair(fs: FileSet) -> bool:
 # backends
 
 def decode_vpk_dir(path: str) -> dict[str, bytes]:
-    """Independent reader for a version 1 VPK whose data lives entirely in the directory entries."""
+    """Independent reader for version 1 and 2 VPK directory files (data in preload, after the tree, in archives)."""
     with open(path, 'rb') as f:
         blob = f.read()
     sig, version, tree_len = struct.unpack_from('<III', blob, 0)
-    if sig != 0x55AA1234 or version != 1:
+    if sig != 0x55AA1234 or version not in (1, 2):
         raise HarnessError(f'bad VPK header {sig:x} v{version}')
     pos = 12
-    end = 12 + tree_len
+    data_size = None
+    if version == 2:
+        data_size, md5a, md5o, sigsz = struct.unpack_from('<4I', blob, 12)
+        pos = 28
+        if pos + tree_len + data_size + md5a + md5o + sigsz != len(blob):
+            raise HarnessError('VPK v2 section sizes do not add up to the file size')
+    end = pos + tree_len
 
     def cstr():
         nonlocal pos
@@ -291,6 +303,8 @@ def decode_vpk_dir(path: str) -> dict[str, bytes]:
                 pos += preload
                 if length:
                     if arch == 0x7FFF:
+                        if data_size is not None and offset + length > data_size:
+                            raise HarnessError('VPK v2 entry reaches beyond the embedded data section')
                         data += blob[end + offset:end + offset + length]
                     else:
                         if not path.endswith('_dir.vpk'):
@@ -301,8 +315,25 @@ def decode_vpk_dir(path: str) -> dict[str, bytes]:
                 full = (folder + '/' if folder != ' ' else '') + name + ('.' + ext if ext != ' ' else '')
                 out[full] = data
     if pos != end:
-        raise HarnessError(f'VPK tree length {tree_len} but tree ends at {pos - 12}')
+        raise HarnessError(f'VPK tree length {tree_len} but tree ends at {pos}')
     return out
+
+
+def vpk_v1_to_v2(v1: bytes) -> bytes:
+    """Re-wrap a version 1 directory file (as srctools writes it) in the version 2 layout, which srctools reads but
+    never writes: 28-byte header (sig, 2, tree size, embedded data size, archive-md5 size, other-md5 size = 48,
+    signature size), tree, embedded data, archive md5 entries, three md5 digests (tree, archive-md5 section, whole)."""
+    import hashlib
+    sig, version, tree_len = struct.unpack_from('<III', v1)
+    if version != 1:
+        raise HarnessError('expected a v1 VPK to re-wrap')
+    tree = v1[12:12 + tree_len]
+    data = v1[12 + tree_len:]
+    archive_md5 = b''
+    body = struct.pack('<7I', sig, 2, tree_len, len(data), len(archive_md5), 48, 0) + tree + data + archive_md5
+    other = hashlib.md5(tree).digest() + hashlib.md5(archive_md5).digest()
+    other += hashlib.md5(body + other).digest()
+    return body + other
 
 
 def scratch_parent():
@@ -321,6 +352,7 @@ class Scratch:
         self.closers = []
         self.n = 0
         self.vpk_archived = False       # a VPK of this case keeps file data in a numbered archive
+        self.notes: set[str] = set()    # histogram classes of the backend variants built for this case
 
     def sub(self, name: str) -> str:
         self.n += 1
@@ -331,6 +363,8 @@ class Scratch:
     def close(self, ctx=None) -> None:
         if ctx is not None and self.vpk_archived:
             ctx.label('vpk:data_in_numbered_archive')
+        if ctx is not None:
+            ctx.label(*sorted(self.notes))
         for c in self.closers:
             try:
                 c()
@@ -349,7 +383,10 @@ def make_backend(kind: str, fset: FileSet, scratch: Scratch, opts: dict):
     d = scratch.sub(kind)
     if kind == 'zip':
         target = io.BytesIO() if opts.get('zip_mem') else os.path.join(d, 'files.zip')
-        with zipfile.ZipFile(target, 'w') as zf:
+        variant = opts.get('zip_variant', 'stored')
+        scratch.notes.add('zip:' + variant)
+        comp = zipfile.ZIP_STORED if variant == 'stored' else zipfile.ZIP_DEFLATED
+        with zipfile.ZipFile(target, 'w', compression=comp) as zf:
             made = set()
             for p in fset.paths:
                 if opts.get('zip_dirs'):
@@ -359,7 +396,11 @@ def make_backend(kind: str, fset: FileSet, scratch: Scratch, opts: dict):
                         if dn not in made:
                             made.add(dn)
                             zf.writestr(dn, b'')
-                zf.writestr(p, fset.tokens[p])
+                if variant == 'zip64':
+                    with zf.open(zipfile.ZipInfo(p), 'w', force_zip64=True) as zw:
+                        zw.write(fset.tokens[p])
+                else:
+                    zf.writestr(p, fset.tokens[p])
         if opts.get('zip_mem'):
             target.seek(0)
             zobj = zipfile.ZipFile(target)
@@ -371,15 +412,36 @@ def make_backend(kind: str, fset: FileSet, scratch: Scratch, opts: dict):
     if kind == 'vpk':
         fname = os.path.join(d, 'pak.vpk' if opts.get('vpk_single') else 'pak_dir.vpk')
         vpk = VPK(fname, mode='w')
+        tail = False
         for i, p in enumerate(fset.paths):
-            vpk.add_file(p, fset.tokens[p], arch_index=i % 2)
+            # big files take turns: pak_000, pak_001, and the directory file itself after the tree (index None)
+            where = (0, None, 1, None)[(i // 3 + len(fset.paths)) % 4]
+            vpk.add_file(p, fset.tokens[p], arch_index=where)
             if len(fset.tokens[p]) > 1024 and not opts.get('vpk_single'):
-                scratch.vpk_archived = True
+                if where is None:
+                    tail = True
+                else:
+                    scratch.vpk_archived = True
         vpk.write_dirfile()
         got = decode_vpk_dir(fname)
         want = {p: fset.tokens[p] for p in fset.paths}
         if got != want:
             raise HarnessError(f'VPK writer did not store the file set (a C13 matter): want {want!r} got {got!r}')
+        if tail:
+            scratch.notes.add('vpk:data_in_dir_tail')
+        if opts.get('vpk_v2'):
+            # format variant the reader accepts but the writer never produces
+            with open(fname, 'rb') as f:
+                v1 = f.read()
+            with open(fname, 'wb') as f:
+                f.write(vpk_v1_to_v2(v1))
+            if decode_vpk_dir(fname) != want:
+                raise HarnessError('harness v2 re-wrap does not decode to the file set')
+            scratch.notes.add('vpk:v2')
+            if tail:
+                scratch.notes.add('vpk:v2_with_dir_tail')
+        else:
+            scratch.notes.add('vpk:v1')
         if set(os.listdir(d)) - {os.path.basename(fname), 'pak_000.vpk', 'pak_001.vpk'}:
             raise HarnessError(f'VPK writer made extra files: {os.listdir(d)!r}')
         return VPKFileSystem(fname)
@@ -556,10 +618,15 @@ def execute_names(desc, ctx):
     scratch = Scratch()
     try:
         full_set = fset
-        for backend in BACKENDS:
+        # both VPK header versions every time: the generated flag first, then the other one
+        v2 = bool(desc.get('vpk_v2'))
+        for backend, opts in (('virtual', desc), ('zip', desc), ('vpk', dict(desc, vpk_v2=v2)),
+                              ('vpk', dict(desc, vpk_v2=not v2)), ('raw', desc)):
             # VPK names must be ASCII: that backend gets the ASCII part of the set
             fset = full_set if backend != 'vpk' else FileSet([p for p in full_set.paths if p.isascii()])
-            fs = make_backend(backend, fset, scratch, desc)
+            fs = make_backend(backend, fset, scratch, opts)
+            if backend == 'vpk':
+                backend = 'vpk(v2)' if opts['vpk_v2'] else 'vpk(v1)'
             for p in fset.paths:
                 for lab, q in spellings(p):
                     if backend == 'raw' and not raw_judgeable(fset, q):
@@ -703,7 +770,8 @@ def execute_chain(desc, ctx):
     members = [Member(i, md, pool) for i, md in enumerate(desc['members'])]
     scratch = Scratch()
     try:
-        systems = [make_backend(m.backend, m.fset, scratch, {}) for m in members]
+        systems = [make_backend(m.backend, m.fset, scratch, {'vpk_v2': md.get('v2', False), 'zip_variant': md.get('zipv', 'stored')})
+                   for m, md in zip(members, desc['members'])]
         n_ctor = 0
         while n_ctor < len(members) and members[n_ctor].how == 'ctor':
             n_ctor += 1
@@ -954,7 +1022,8 @@ def casedup_strategy(tier: str):
                                        st.sampled_from(['upper', 'lower', 'swap', 'title'])).map(list),
                              min_size=1, max_size=5),
         'backend': st.sampled_from(['zip', 'vpk', 'vpk']),
-        'zip_dirs': st.booleans(), 'zip_mem': st.booleans(), 'vpk_single': st.booleans(),
+        'zip_dirs': st.booleans(), 'zip_mem': st.booleans(), 'vpk_single': st.booleans(), 'vpk_v2': st.booleans(),
+        'zip_variant': st.sampled_from(['stored', 'deflated', 'zip64']),
         'chain': st.sampled_from(['single', 'twice', 'zip+vpk', 'vpk+zip']),
     })
 
@@ -1102,7 +1171,8 @@ def execute_case_dups(desc, ctx):
 
 SUBCHECKS = [
     Sub('names', execute_names, strategy=fileset_strategy, quick=500, thorough=30000, floor=40,
-        must_hit=('vpk:data_in_numbered_archive', 'name:lower_ne_casefold', 'mixed_case', 'prefix_pair', 'spelling:backslash', 'spelling:swap', 'spelling:mixed_slash', 'absent',
+        must_hit=('vpk:v2_with_dir_tail', 'vpk:v1', 'vpk:data_in_dir_tail', 'zip:deflated', 'zip:zip64', 'zip:stored',
+                  'vpk:data_in_numbered_archive', 'name:lower_ne_casefold', 'mixed_case', 'prefix_pair', 'spelling:backslash', 'spelling:swap', 'spelling:mixed_slash', 'absent',
                   'depth:3', 'empty_set')),
 ] + [
     Sub('walk_' + b, make_walk_execute(b), strategy=fileset_strategy, quick=500, thorough=30000, floor=40,
@@ -1110,14 +1180,14 @@ SUBCHECKS = [
                   'folder:name_extended', 'folder:file_as_folder', 'walk_nonempty:exact', 'walk_nonempty:exact_slash',
                   'walk_nonempty:all', 'depth:3')
         + (() if b == 'raw' else ('folder:upper', 'walk_nonempty:upper'))
-        + (('vpk:data_in_numbered_archive',) if b == 'vpk' else ('name:lower_ne_casefold',)))
+        + (('vpk:data_in_numbered_archive', 'vpk:v2_with_dir_tail', 'vpk:v1') if b == 'vpk' else ('name:lower_ne_casefold',)))
     for b in BACKENDS
 ] + [
     Sub('case_dups', execute_case_dups, strategy=casedup_strategy, quick=500, thorough=30000, floor=40,
         must_hit=('has_case_dup_file', 'has_case_dup_folder', 'backend:zip', 'backend:vpk', 'chain:single',
                   'chain:zip+vpk')),
     Sub('chain', execute_chain, strategy=chain_strategy, quick=600, thorough=30000, floor=40,
-        must_hit=('vpk:data_in_numbered_archive', 'chain:folder_file_clash', 'chain:clash_raw_ahead_of_winner', 'chain:folder_file_clash_raw', 'chain:folder_file_clash_zip', 'chain:query_before_append', 'chain:query_before_priority_insert', 'lookup:not_yet_visible',
+        must_hit=('vpk:v2_with_dir_tail', 'vpk:v1', 'vpk:data_in_numbered_archive', 'chain:folder_file_clash', 'chain:clash_raw_ahead_of_winner', 'chain:folder_file_clash_raw', 'chain:folder_file_clash_zip', 'chain:query_before_append', 'chain:query_before_priority_insert', 'lookup:not_yet_visible',
                   'shared_name', 'priority_insert', 'prefixed_member', 'members:4', 'walk_deduplicated',
                   'member:virtual', 'member:zip', 'member:vpk', 'member:raw', 'walk:exact', 'lookup:upper',
                   'lookup:backslash')),
